@@ -9,7 +9,7 @@ git -C /repo worktree add --detach "$WT" HEAD >/dev/null 2>&1 || exit 2
 if ! git -C "$WT" apply "$PATCH"; then echo "patch does not apply"; git -C /repo worktree remove --force "$WT"; exit 2; fi
 cd /verif
 for ID in "$@"; do
-  OUT=$(PPV_REPO="$WT" PPV_EVIDENCE_DIR="$WT/.evidence" PPV_FOUND_DIR="$WT/.found" timeout ${SEED_TIMEOUT:-900} /venv/bin/python -m ppv.run "$ID" --tier ${TIER:-quick} 2>&1)
+  OUT=$(PPV_REPO="$WT" PPV_EVIDENCE_DIR="$WT/.evidence" PPV_FOUND_DIR="$WT/.found" timeout ${SEED_TIMEOUT:-900} /venv/bin/python -m ppv.run "$ID" --tier ${TIER:-quick} ${SCALE:+--scale $SCALE} 2>&1)
   RC=$?
   echo "$ID rc=$RC $(echo "$OUT" | grep -E '^---' | head -2 | cut -c1-200 | tr '\n' '|')"
 done
